@@ -1,7 +1,7 @@
 """C04 — expressions evaluate with the documented precedence and typing."""
 from .common import *
 from refinterp import Lit, Var, Bin, Not, PREC, eval_expr, EvalError, norm, py_str
-FIELDS = ('out', 'vars', 'cls')
+FIELDS = ('out', 'vars', 'cls', 'toks')
 RULE = 'well-typed expression trees (depth<=6) over int/decimal/string/bool literals and variables, all 13 operators, !( ), random layout; thorough: all 169 operator pairs; distinct expressions with >= 2 operators'
 ARITH = ['+', '-', '*', '/', '//', '%', '^']
 CMP = ['==', '!=', '<', '>', '<=', '>=']
@@ -214,6 +214,21 @@ def generate(g, tier):
             head, _, tail = txt.partition(f'{b}^{N}')
             lines = [f'VAR big {b}^{N}', f'$STRING {head}big{tail}']
         cases.append(dict(op='compile', timeout=30, src=dict(text='\n'.join(lines)), meta=dict(family='huge-intermediate', form='outs', expout=['STRING ' + str(v)], nocorr=True)))
+    # the SCANNER'S TOKEN LIST itself (before tree building and evaluation) is compared with the model's `lex`, the function the
+    # scanner theorems are about: structured expressions in random layouts, and token soup
+    SOUP = ['1', '12', '007', '3.5', '.', '-', '-4', '+', '*', '/', '//', '%', '^', '==', '!=', '<', '<=', '>', '>=', ',', '(', ')', '!', '!(', '"', '"a b"', '""', 'TRUE', 'FALSE', 'TRU', 'Tab',
+            'a', 'ab', 'abc', 'n', 'Fx', 'T', ' ', '  ', '\t', '$DEFAULT_DELAY', '=', '!!', '1.', '..']
+    for _ in range(count(tier, 400, 4000)):
+        vars_ = dict(r.choice(VARSETS))
+        if g.chance(0.5):
+            d = r.randint(1, 4)
+            e = r.choice([gen_num, gen_num, gen_bool, gen_str])(g, vars_, d)
+            text = layout(g, e)
+        else:
+            text = ''.join(r.choice(SOUP) + r.choice(['', '', ' ']) for _ in range(r.randint(1, 9)))
+        vs = [[k, v] for k, v in vars_.items() if isinstance(v, int) and not isinstance(v, bool)]
+        if len(vs) != len(vars_): continue
+        cases.append(dict(op='lex', expr=text, vars=vs, meta=dict(family='tokens', form='tokens')))
     # division by zero in every position
     for op in ('/', '//', '%'):
         for _ in range(count(tier, 10, 60)):
@@ -254,6 +269,9 @@ def oracle(cases, results):
     for i, (c, r) in enumerate(zip(cases, results)):
         m = c.get('meta', {})
         if r.get('kind') == 'hang': continue
+        if m.get('form') == 'tokens':
+            if r.get('kind') == 'crash': fs.append(fail(i, f'the scanner raises {r.get("exc")} on {c.get("expr")!r}', f'tokens:crash:{r.get("exc")}'))
+            continue
         if m.get('div0'):
             if r.get('kind') != 'cerr' or r.get('cls') != 'DivideByZeroError':
                 fs.append(fail(i, f'division by zero not reported as DivideByZeroError: {r.get("kind")} {r.get("cls", r.get("exc", ""))} {r.get("out")}', 'div0'))
